@@ -3,7 +3,7 @@
    definitions through the extracted driver, and the theorems' hypotheses can be checked on examples. *)
 From Coq Require Import List NArith ZArith Bool Arith.
 From Coq Require Import Strings.Byte.
-Require Import CU.model.Prim CU.model.Types CU.model.Unicode CU.model.Regex CU.model.Codec CU.model.Card CU.model.Dates CU.model.Iso.
+Require Import CU.model.Prim CU.model.Types CU.model.Unicode CU.model.Regex CU.model.Codec CU.model.Card CU.model.Dates CU.model.Dec CU.model.Iso.
 Import ListNotations.
 
 (* ------------------------------------------------------------------ configurations *)
@@ -29,7 +29,7 @@ Definition wf_fieldb (c : fieldcfg) : bool :=
   | None => false
   | Some n =>
     match f_ptype c with
-    | PTDec => false                                               (* decimal: oracle only, not modelled *)
+    | PTDec => false                                               (* decimal: modelled by text (model/Dec.v, props/C01dec.v), outside this domain *)
     | PTStr => match f_proc c with
                | PICC | PPDS => is_var (f_type c)
                | PDE43 => de43_modelledb (f_de43 c)                (* a splitting pattern inside the modelled regex fragment *)
@@ -179,6 +179,13 @@ Definition elem_text (c : fieldcfg) (v : value) : option str :=
   | PTStr, VStr s => Some s
   | PTInt, VInt z => match f_len c with Some w => Some (fmt0Z w z) | None => None end
   | PTDate, VDate d => match strftime_m (f_datefmt c) d with Ok s => Some s | _ => None end
+  (* a decimal element: the value is the text of a plain fixed-point numeral (or an int), written with the sign first
+     and zeros up to the configured width (model/Dec.v) *)
+  | PTDec, VStr s => match f_len c with
+                     | Some (S w) => match dec_parse s with DPlain d => Some (dec_fmt (S w) d) | _ => None end
+                     | _ => None
+                     end
+  | PTDec, VInt z => match f_len c with Some (S w) => Some (dec_fmt (S w) (dec_of_Z z)) | _ => None end
   | _, _ => None
   end.
 
